@@ -112,7 +112,8 @@ def corr_plan(chk, r, n):
 def search_histories(chk, r, n):
     """real runs: every point's result must be bit-identical to its single-point run"""
     pool = [dict(x=0.1, Q2=10.0), dict(x=0.3, Q2=10.0), dict(x=0.3, Q2=40.0), dict(Q2=0.3, x=0.7), dict(x=0.7, Q2=0.3), dict(x=0.3, Q2=0.7), dict(x=0.55, Q2=40.0), dict(Q2=10.0, x=0.1)]
-    forced = [dict(sv=dict(FactScaleVar=False, FNS="FFNS", NfFF=3), alias=False), dict(sv=dict(FactScaleVar=False), alias=True), dict(sv=dict(RenScaleVar=False, FactScaleVar=False), alias=False), dict(sv={}, alias=True)]
+    forced = [dict(sv=dict(FactScaleVar=False, FNS="FFNS", NfFF=3), alias=False), dict(sv=dict(FactScaleVar=False), alias=True), dict(sv=dict(RenScaleVar=False, FactScaleVar=False), alias=False), dict(sv={}, alias=True),
+              dict(sv={}, alias=False, multi_nf=True), dict(sv=dict(RenScaleVar=False), alias=False, multi_nf=True)]
     for i_case in range(n + len(forced)):
         tmc = r.choice([0, 0, 1, 3])
         process = r.choice(["NC", "CC", "EM"])
@@ -122,6 +123,8 @@ def search_histories(chk, r, n):
         force = forced[i_case] if i_case < len(forced) else None
         if force is not None:
             tmc, pto, fl = 0, 1, "total"
+            if force.get("multi_nf"):
+                kinds, process = ["F2", "FL"], "NC"
         names = [f"{k}_{fl}" for k in kinds]
         grid = cards.default_grid(7, 0.05)
         # the scale-variation switches are legal card entries: every combination
@@ -131,6 +134,9 @@ def search_histories(chk, r, n):
         th = cards.theory(PTO=pto, TMC=tmc, Q0=0.5, **sv_kw)
         kw = dict(prDIS=process, ProjectileDIS="neutrino" if process == "CC" else "electron", interpolation_xgrid=grid, interpolation_polynomial_degree=2)
         pts = [copy.deepcopy(p) for p in r.sample(pool, r.choice([2, 3, 5]))]
+        if force is not None and force.get("multi_nf"):
+            # points on both sides of the charm and bottom matching scales, scale variations on
+            pts = [dict(x=0.3, Q2=0.7), dict(x=0.1, Q2=10.0), dict(x=0.3, Q2=40.0), dict(x=0.55, Q2=40.0)]
         if r.random() < 0.4:
             pts.append(copy.deepcopy(pts[0]))  # duplicate
         obs = {nm: [copy.deepcopy(p) for p in pts] for nm in names}
@@ -153,6 +159,8 @@ def search_histories(chk, r, n):
             big2 = realrun.run(th, cards.obs(perm, **kw))
             target_name = r.choice(names)
             i = r.randrange(len(pts))
+            if force is not None and force.get("multi_nf"):
+                target_name, i = names[0], 2  # F2 at Q2 = 40 (nf = 5), computed after the nf = 3 and nf = 4 points
             single = realrun.run(th, cards.obs({target_name: [copy.deepcopy(pts[i])]}, **kw))[target_name][0]
         except Exception as e:
             chk.extra.setdefault("search_exceptions", {})
